@@ -84,6 +84,7 @@ struct StepInfo {
   bool store = false;     // a data store happened (incl. the store of a READ)
   uint32_t storeAddr = 0; // word address
   uint32_t storeData = 0;
+  uint32_t storeOld = 0;  // previous content of the stored word (lets a monitor undo the step)
   bool isSvc = false;
   uint32_t svcNum = 0;
   bool branchTaken = false;
@@ -241,7 +242,7 @@ struct Machine {
       break;
     default: status = Status::UNDEF_OPCODE; return false;
     }
-    if (si.store) mem[si.storeAddr] = si.storeData;
+    if (si.store) { si.storeOld = mem[si.storeAddr]; mem[si.storeAddr] = si.storeData; }
     pc = npc; areg = na; breg = nb; oreg = no;
     steps++;
     return status == Status::RUNNING;
